@@ -153,6 +153,7 @@ class Runner(object):
         self.ever_evicted = set()
         self.flags = set()
         self.seen = {}           # skey -> key, every key this history computed
+        self.c07_reported = set()
 
     # -- construction -------------------------------------------------------------------
     def _make_cache(self):
@@ -499,6 +500,9 @@ class Runner(object):
         if tuple(s1['info']) != tuple(s0['info']):
             self.violation('C16', 'raise-changed-stats',
                            'info() changed by a raising call: %r -> %r' % (s0['info'], s1['info']))
+            self.violation('C15', 'failed-call-counted',
+                           'a call that raised (not completed) moved the counters: %r -> %r'
+                           % (s0['info'], s1['info']))
 
     def check_call(self, i, args, kwds, expect, k, cls, result, raised, s0, s1):
         cfg = self.cfg
@@ -526,6 +530,10 @@ class Runner(object):
         # ---- C02 compute-once
         n_eval = s1['nlog'] - s0['nlog']
         self.note('c02_checks')
+        if n_eval and cls != 'degraded' and att0 and sk in self.retr:
+            self.violation('C02', 'recomputed-retrievable-result',
+                           'key %s was evaluated again although its result was computed earlier, never '
+                           'cleared, and an archive was attached ever since' % sk, keys=[k])
         want = 1 if cls in ('miss', 'degraded') else 0
         if n_eval != want:
             self.violation('C02', 'evaluations',
@@ -607,14 +615,13 @@ class Runner(object):
                     self.violation('C07', 'left-memory-not-in-archive',
                                    'key %s left memory during a call and is not in the attached archive'
                                    % skey(x), keys=[x])
-                    self.retr.pop(skey(x), None)
             have = set(skey(x) for x in mem1) | set(skey(x) for x in arch1)
             for r in list(self.retr):
-                if r not in have:
+                if r not in have and r not in self.c07_reported:
+                    self.c07_reported.add(r)
                     self.violation('C07', 'result-not-retrievable',
                                    'result for key %s was computed, never cleared, and is in neither '
                                    'memory nor archive' % r, keys=[self.seen[r]] if r in self.seen else [])
-                    del self.retr[r]
         else:
             have = set(skey(x) for x in mem1) | set(skey(x) for x in self.arch_any())
             for r in list(self.retr):
@@ -838,7 +845,7 @@ def pick_backend(rng, focus):
 def gen_case(rng, focus, nops=None):
     """one random case (cfg + sig + ops) for the given focus property"""
     for _ in range(200):
-        sig = rng.choice(gen.SIGS)
+        sig = rng.choice(gen.SIGS + (['x, y=0.12345', 'x=1.005, y=2.675'] if focus == 'C18' else []))
         b = pick_backend(rng, focus)
         kms = gen.keymap_cfgs()
         km = rng.choice(kms)
@@ -860,9 +867,17 @@ def gen_case(rng, focus, nops=None):
     cfg = {'algo': algo, 'safe': safe, 'maxsize': maxsize,
            'maxsize_positional': rng.random() < 0.5, 'purge': rng.random() < 0.35,
            'keymap': km, 'backend': b}
+    if focus == 'C18':
+        if rng.random() < 0.4:
+            cfg['tol'] = rng.choice([0, 1, 2]); cfg['deep'] = rng.random() < 0.4
+        names = [n for kd, n in gen.sig_names(sig) if kd == 'pos']
+        if names and rng.random() < 0.3:
+            cfg['ignore'] = enc([rng.choice(names + list(range(len(names))))])
     if algo not in BOUNDED:
         cfg['maxsize'] = 0 if algo == 'no' else None
     universe = list(gen.UNIVERSE)
+    if focus == 'C18':
+        universe += [2.54, 2.51, 0.12345, 1.005]
     if focus in ('C16', 'C18', 'C20') and b['kind'] == 'dir':
         # twin comparisons cannot attribute a divergence to the known file-name aliasing of
         # dir_archive ('a-b'/'a_b', 1/'1'), so those foci do not feed it alias pairs
@@ -882,6 +897,8 @@ def gen_case(rng, focus, nops=None):
             c = gen.gen_call(rng, sig, [gen.Pre(h) for h in rng.sample(hostile, 3)] + universe[:2])
             pool.append(c)
     n = nops or rng.choice([20, 30, 40, 60, 80])
+    if focus == 'C06' and rng.random() < 0.5:
+        n = rng.choice([120, 200, 300])
     ops = gen_history(rng, focus, cfg, pool, n, ms)
     case = {'cfg': cfg, 'sig': sig, 'ops': ops, 'seed': rng.randrange(1 << 30), 'focus': focus}
     return case
@@ -898,9 +915,12 @@ def gen_history(rng, focus, cfg, pool, n, ms):
     ops = []
     has_arch = cfg['backend']['kind'] not in ('dict', 'null') and not cfg['backend'].get('direct')
     pattern = rng.choice(['random', 'zipf', 'loop', 'scan', 'hit_then_overflow', 'long_hits'])
+    if focus == 'C06' and n >= 120:
+        pattern = rng.choice(['long_hits', 'long_hits', 'resident_walk', 'zipf'])
+    recent = []
     mgmt_p = {'C01': 0.15, 'C02': 0.15, 'C05': 0.2, 'C06': 0.03, 'C07': 0.1, 'C15': 0.25,
               'C16': 0.05, 'C18': 0.05, 'C20': 0.0}.get(focus, 0.1)
-    raise_p = 0.25 if focus == 'C16' else 0.0
+    raise_p = {'C16': 0.25, 'C15': 0.08}.get(focus, 0.0)
     intro_p = 0.3 if focus == 'C18' else 0.0
     weights = [1.0 / (j + 1) for j in range(len(pool))]
     pos = 0
@@ -927,11 +947,22 @@ def gen_history(rng, focus, cfg, pool, n, ms):
                 c = rng.choice(hot)
             else:
                 c = rng.choice(pool)
+        elif pattern == 'resident_walk':
+            # mostly re-reference one of the last `ms` distinct calls (they are resident), in a
+            # changing order; occasionally a new call overflows - recency order matters each time
+            if recent and rng.random() < 0.9:
+                c = rng.choice(recent)
+            else:
+                c = rng.choice(pool)
         else:  # long_hits: many hits on few keys (forces LRU queue compaction), rare overflow
             if rng.random() < 0.93:
                 c = rng.choice(hot)
             else:
                 c = rng.choice(pool)
+        if c in recent:
+            recent.remove(c)
+        recent.append(c)
+        del recent[:-max(1, ms)]
         rn = rng.choice(sorted(EXC_TYPES)) if rng.random() < raise_p else None
         ops.append(_call(c, rn))
     return ops
@@ -943,9 +974,11 @@ def gen_mgmt(rng, focus, cfg, pool, has_arch):
     if has_arch:
         choices += [['dump'], ['dump', sub], ['load', sub], ['archived', 0], ['archived', 1],
                     ['archived', 1], ['reopen']]
-        if focus in ('C01', 'C05', 'C15'):
+        if focus in ('C01', 'C05', 'C15', 'C07'):
             choices += [['load'], ['archfill', [[enc(c[0]), enc(c[1])] for c in pool]],
                         ['swaparchive']]
+    if not has_arch and focus in ('C01', 'C05', 'C15') and not cfg['backend'].get('direct'):
+        choices += [['swaparchive']]     # an archive attached after decoration
     if focus in ('C05', 'C01'):
         choices += [['overfill', [[enc(c[0]), enc(c[1])] for c in pool]]]
     if focus in ('C06',):
